@@ -121,8 +121,8 @@ def archive_to_fsobj(src_tar):
         elif member.isfifo():
             yield fsFifo(location, **d)
         elif member.isdev():
-            d["major"] = int(member.major)
-            d["minor"] = int(member.minor)
+            d["major"] = int(member.devmajor)
+            d["minor"] = int(member.devminor)
             yield fsDev(location, **d)
         else:
             raise AssertionError(
